@@ -9,16 +9,16 @@ import os
 import vlib
 
 CONSTS = {
-    "quick": {"MaxLen": "4", "MaxLenW": "4", "MaxBytes": "3", "MaxMove": "5", "WideHi": "767"},
+    "quick": {"MaxLen": "4", "MaxLenW": "3", "MaxBytes": "3", "MaxMove": "5", "WideHi": "767"},
     "thorough": {"MaxLen": "5", "MaxLenW": "4", "MaxBytes": "4", "MaxMove": "7", "WideHi": "8191"},
 }
-CHUNKS = {"quick": 8, "thorough": 40}
+CHUNKS = {"quick": 8, "thorough": 64}
 RANDOM = {"quick": 150, "thorough": 3000}
 
 
 def model(tier, rep):
     r = vlib.tlc_mc("CLib.tla", "CLib.cfg", "clib_mc_" + tier, workers=10 if tier == "quick" else 14,
-                    constants=CONSTS[tier], heap="6g", timeout=2400)
+                    constants=CONSTS[tier], heap="3g", timeout=2400)
     rep.add_mc("CLib", r)
     gen = r["gen"]
     if not gen:
@@ -67,16 +67,21 @@ def execute(tier, gens, bins, impl):
 
 
 def pipeline(tier, rep, calibrate=True):
-    gens, nvec = model(tier, rep)
-    bins = build_drivers()
+    from concurrent.futures import ThreadPoolExecutor
+    with ThreadPoolExecutor(max_workers=2) as ex:
+        fb = ex.submit(build_drivers)
+        gens, nvec = model(tier, rep)
+        bins = fb.result()
     traces, unsupported = execute(tier, gens, bins, "etl")
-    par = 8 if tier == "quick" else 10
-    tv = vlib.tv_parallel("CLibTrace.tla", "CLibTrace.cfg", traces, "clib_tv_etl_" + tier, par=par, heap="3g")
+    par = 6 if tier == "quick" else 8
+    tv = vlib.tv_parallel("CLibTrace.tla", "CLibTrace.cfg", traces, "clib_tv_etl_" + tier, par=par, heap="2g")
     rep.add_tv("CLib", tv, nvec + 2 * RANDOM[tier])
+    for p in traces:    # every deviation carries its event; the traces themselves are not needed any more
+        os.remove(p)
     rep.cov["modules"]["CLib"].update({"not_drivable": unsupported, "random_pairs_per_family": RANDOM[tier]})
     if calibrate:
         ctr, _ = execute(tier, gens, bins, "std")
-        ctv = vlib.tv_parallel("CLibTrace.tla", "CLibTrace.cfg", ctr, "clib_tv_std_" + tier, par=par, heap="3g")
+        ctv = vlib.tv_parallel("CLibTrace.tla", "CLibTrace.cfg", ctr, "clib_tv_std_" + tier, par=par, heap="2g")
         if ctv["deviations"]:
             d = ctv["deviations"][0]
             raise vlib.ModelFailure("calibration: glibc deviates from CLibOps (spec/projection error): %s %s"
@@ -85,3 +90,29 @@ def pipeline(tier, rep, calibrate=True):
         for p in ctr:
             os.remove(p)
     return tv
+
+
+def replay(path, pid):
+    """Re-execute the call of a recorded deviation on the current tree (same memory image, pointers and
+    arguments) and judge it again with CLibTrace.tla."""
+    rec = json.load(open(path))
+    ev = rec["event"]
+    d = vlib.workdir("clib")
+    ip = os.path.join(d, "replay_in.ndjson")
+    with open(ip, "w") as f:
+        f.write(json.dumps(ev) + "\n")
+    binp = vlib.build("clib_driver.cpp", "clib_etl_rp")
+    tp = os.path.join(d, "replay_all.ndjson")
+    vlib.run([binp, "event", ip], tp)
+    keys = ("op", "w", "cv", "f", "c", "x", "y", "p", "q", "n")
+    sel = [l for l in open(tp) if all(json.loads(l).get(k) == ev.get(k) for k in keys)]
+    if not sel:
+        raise vlib.ModelFailure("replay: the call %s is no longer executable" % ev.get("op"))
+    one = os.path.join(d, "replay_one.ndjson")
+    with open(one, "w") as f:
+        f.write(sel[0])
+    r = vlib.tlc_tv("CLibTrace.tla", "CLibTrace.cfg", one, "clib_tv_replay", heap="1g")
+    if r["deviations"]:
+        print("VIOLATION property=%s replay=%s" % (pid, path))
+        return 1
+    return 0
